@@ -43,6 +43,10 @@ fn main() {
             if g2.starts_with("probe:") {
                 vharness::run_probe(&g2, &args)
             } else {
+                #[cfg(feature = "derive")]
+                if let Some(r) = vharness::derived::run_derived(&g2, &args) {
+                    return Some(r);
+                }
                 vharness::run_named(&g2, &args)
             }
         });
